@@ -41,7 +41,12 @@ NoDup(s) == Cardinality({s[k] : k \in 1..Len(s)}) = Len(s)
 \* always in free-running runs, and in controlled runs in which the controller let the consumer
 \* enter a blocking recv() (recorded as "RecvBlocked"), whose completion is then asynchronous.
 AsyncConsumer(r) == r.mode = "free" \/ \E k \in 1..Len(r.acts) : r.acts[k] = "RecvBlocked"
+\* mechanism layer: the exact look-ahead of the code as written (channel of capacity W, one item per worker)
 Bound(r) == (IF r.W = 0 THEN 1 ELSE r.cap + r.W) + (IF AsyncConsumer(r) THEN 1 ELSE 0)
+\* property layer (C09): "a constant depending on thread count and buffer size, not on the input length" - any small
+\* multiple of (threads + buffer) is accepted; what must be excluded is look-ahead that grows with the upstream,
+\* which the long-upstream runs (N >> Generous) expose
+Generous(threads, buffer) == 4 * (threads + buffer) + 8
 
 \* Buffered (C09): same observables, its own constants
 BFree(r) == r.ctl = "free"
@@ -49,8 +54,8 @@ BPulls(r, m) == IF BFree(r) THEN Max2(m.pulls, r.total_pulls) ELSE m.pulls
 BClauses(r, m) == <<
     <<"buffered_in_order", \A k \in 1..Len(m.out) : m.out[k] = k - 1>>,
     <<"buffered_complete", m.ended => Len(m.out) = r.N>>,
-    <<"buffered_lookahead", m.maxLook <= r.cap + 1 + (IF BFree(r) THEN 1 ELSE 0)>>,
-    <<"buffered_pulls_after_drop", m.dropped => BPulls(r, m) <= m.pullsAtDrop + 1>>,
+    <<"buffered_lookahead", m.maxLook <= Generous(1, r.cap)>>,
+    <<"buffered_pulls_after_drop", m.dropped => BPulls(r, m) <= m.pullsAtDrop + Generous(1, r.cap)>>,
     <<"buffered_producer_exits", (r.drained /\ ~m.stuck) => m.allExited>>,
     <<"progress", ~m.stuck>>
 >>
@@ -62,14 +67,23 @@ PClauses(r, m) == <<
     <<"complete_at_end", m.ended => (Len(m.out) = r.N /\ {m.calls[k] : k \in 1..Len(m.calls)} = 0..(r.N - 1))>>,
     <<"nothing_after_end", ~m.lateRecv>>,
     <<"iteration_ends", (r.drained /\ ~m.dropped /\ ~m.stuck) => m.ended>>,
-    <<"bounded_lookahead", m.maxLook <= Bound(r)>>,
-    \* free-running: the drop is logged just before it is executed, so everything the
-    \* workers may still legally pull ahead is allowed for; controlled: exactly W
-    <<"bounded_pulls_after_drop",
-        m.dropped => m.pulls <= m.pullsAtDrop + (IF r.mode = "free" THEN 2 * r.W + r.cap ELSE r.W)>>,
+    <<"bounded_lookahead", m.maxLook <= Generous(r.W, r.W)>>,
+    <<"bounded_pulls_after_drop", m.dropped => m.pulls <= m.pullsAtDrop + Generous(r.W, r.W)>>,
     <<"threads_exit", (r.drained /\ ~m.stuck) => m.allExited>>,
     <<"progress", ~m.stuck>>
 >>
+
+\* mechanism layer (DRIFT): the exact bounds of the code as written
+\* free-running: the drop is logged just before it is executed, so everything the
+\* workers may still legally pull ahead is allowed for; controlled: exactly W
+PMech(r, m) ==
+    (IF m.maxLook <= Bound(r) THEN <<>> ELSE <<"lookahead_above_channel_plus_workers">>) \o
+    (IF m.dropped => m.pulls <= m.pullsAtDrop + (IF r.mode = "free" THEN 2 * r.W + r.cap ELSE r.W)
+     THEN <<>> ELSE <<"pulls_after_drop_above_one_per_worker">>)
+BMech(r, m) ==
+    (IF m.maxLook <= r.cap + 1 + (IF BFree(r) THEN 1 ELSE 0) THEN <<>> ELSE <<"buffered_lookahead_above_capacity_plus_one">>) \o
+    (IF m.dropped => BPulls(r, m) <= m.pullsAtDrop + 1 THEN <<>> ELSE <<"buffered_more_than_one_pull_after_drop">>)
+Mech(r, m) == IF r.mode = "buffered" THEN BMech(r, m) ELSE IF r.mode = "child" THEN <<>> ELSE PMech(r, m)
 
 \* panic clause of C09: a child process whose processing function panics at item `fail`
 \* must terminate (the parent records its exit status or "hang" after 10 s)
@@ -90,7 +104,7 @@ Judge(r) ==
              pathDrift == IF r.path # <<>> /\ (Len(r.acts) < Len(r.path) \/ SubSeq(r.acts, 1, Len(r.path)) # r.path)
                           THEN <<"path_mismatch">> ELSE <<>>
          IN [why |-> [k \in 1..Len(bad) |-> bad[k][1]],
-             drift |-> pathDrift,
+             drift |-> pathDrift \o Mech(r, m),
              skip |-> FALSE,
              \* non-trivial: two workers were between processing and turn hand-over at
              \* the same time, or a drop happened while a worker was active
